@@ -41,7 +41,7 @@ def job_list(pid, tier, seed):
 # wall-clock budget of the exploration part of one check: when a (changed) contract makes operations crawl, the
 # histories not yet started are skipped and counted in the evidence, so that the check still answers in minutes
 DEADLINE = [None]
-BUDGET_S = {"quick": int(os.environ.get("LP_QUICK_BUDGET", "420")), "thorough": int(os.environ.get("LP_THOROUGH_BUDGET", "5400"))}
+BUDGET_S = {"quick": int(os.environ.get("LP_QUICK_BUDGET", "240")), "thorough": int(os.environ.get("LP_THOROUGH_BUDGET", "5400"))}
 
 
 def run_job(job):
